@@ -7,7 +7,7 @@ are about; these theorems say that on a rectangular block and a rectangular shif
 kernels compute the same cells and reject exactly the same requests.
 -/
 namespace SppModel.KernelSpecs
-open SppModel SppModel.Loop SppModel.Generated.BlockKernels
+open SppModel SppModel.Loop SppModel.Frozen.BlockKernels
 
 /-! ## helpers -/
 
